@@ -1,0 +1,11 @@
+//go:build verif
+
+package pbkdf2
+
+// Contracts for govc (/verif). Comments only.
+
+//@ func Key
+//@ props C16 C18
+//@ may_panic_when keyLen <= 0 || keyLen > 4294967295 * spec.hashsize(h)
+//@ ensures len(result) == keyLen
+//@ ensures ref(result) != 0
